@@ -6,7 +6,7 @@
    (tabs expanded with a column that runs from the start of the text; cut with the ellipsis when too wide).
    Model (model/RenderModel.v): render c v = what printAll paints on an erased window, in window rows;
    run c t us = the incremental-redraw machine (prevLines) over a history of field updates + render requests. *)
-From Fzf Require Import Prelude RenderSpec RenderModel RenderProofs.
+From Fzf Require Import Prelude RenderSpec RenderModel RenderProofs RenderDynModel RenderDynProofs.
 Open Scope nat_scope.
 
 (* ★ rows_faithful: for every configuration that fits the window, every state and every list slot i of the window,
@@ -114,6 +114,67 @@ Theorem incremental_eq_full_refuted :
     t_screen (run c (start c v0) us) <> t_screen (paint c (run c (start c v0) us)).
 Proof. exact incremental_eq_full_refuted_proof. Qed.
 Print Assumptions incremental_eq_full_refuted.
+
+(* ---------- the header changes during the session (model/RenderDynModel.v) ----------
+   toggle-header / hide-header / show-header and change-header / transform-header give header rows to the list and
+   take list rows for the header without a full redraw; printItem relies on itemLine.other (set by markOtherLine when
+   a header line is printed) to rewrite such a row from scratch.
+   ★ dyn_incremental_eq_full_list: in the layouts default and reverse, for EVERY history of header states, field
+   updates and render requests in which a step either asks for the list (or everything) to be redrawn or changes
+   neither the header nor what the list shows, every configuration met fitting the window: the list rows of the
+   screen buffer under the FINAL header are those a full redraw of the final state paints on an erased window, and
+   every list slot of the screen shows its result line on the row the layout dictates (RenderSpec.shows_list) - so
+   no row the list took over from the header keeps anything of the header, and no header line is part of the list.
+   (List area only: that the header rows show the header is checked on the implementation.) *)
+Theorem dyn_incremental_eq_full_list : forall txt_of c0 h0 v0 dus, c_layout c0 <> LReverseList ->
+  cfg_ok (with_hdr c0 h0) -> coherent txt_of (v_matches v0) -> dhist_ok txt_of c0 (start_d c0 h0 v0) dus ->
+  let d := run_d c0 (start_d c0 h0 v0) dus in
+  let c := with_hdr c0 (last_hdr h0 dus) in
+  cfg_ok c /\ list_seg c (d_t d) = list_seg c (paint c (d_t d)) /\
+  shows_list c (t_view (d_t d)) (physical c (t_screen (d_t d))).
+Proof. intros txt_of c0 h0 v0 dus Hl. exact (dyn_incremental_list_proof txt_of c0 Hl h0 v0 dus). Qed.
+Print Assumptions dyn_incremental_eq_full_list.
+
+(* FINDING: in the reverse-list layout the same statement is false of the faithful model.  Terminal.move sends list
+   line y to window row y - (input lines + header lines in the list window), so when the header goes away every list
+   line lands on another row while prevLines still describes the old one: 40x10, --header of two lines, items a1..g7,
+   toggle-header leaves "  g7RST-HEADER-LINE" on the row of g7 - what fzf shows
+   (KNOWN_FINDINGS id=reverse-list-header-remnant). *)
+Theorem dyn_incremental_refuted_reverse_list :
+  exists c0 h0 v0 dus txt_of,
+    c_layout c0 = LReverseList /\ dyn_domain c0 h0 /\ cfg_ok (with_hdr c0 h0) /\ coherent txt_of (v_matches v0) /\
+    dhist_ok txt_of c0 (start_d c0 h0 v0) dus /\
+    let d := run_d c0 (start_d c0 h0 v0) dus in
+    let c := with_hdr c0 (last_hdr h0 dus) in
+    list_seg c (d_t d) <> list_seg c (paint c (d_t d)) /\
+    row_at (physical c (t_screen (d_t d))) (list_row c 6) =
+      pad 40 [32;32;103;55;82;83;84;45;72;69;65;68;69;82;45;76;73;78;69]%Z.
+Proof. exact dyn_incremental_refuted_reverse_list_proof. Qed.
+Print Assumptions dyn_incremental_refuted_reverse_list.
+
+(* non-vacuity of dyn_incremental_eq_full_list: default layout, 20x8, a two-line header over the items a1..c3;
+   hide-header, then change-header to one line while hidden, then show-header: the hypotheses hold, and after the
+   first step the rows that showed the header show "> a1" and "  b2" and nothing else *)
+Example c15_dyn_nonvacuous :
+  let c0 := mkCfg 20 8 LDefault IDefault true [] [] 0%Z 8 in
+  let hd := [[72;69;65;68;69;82;45;79;78;69]; [72;69;65;68;69;82;45;84;87;79]]%Z in     (* HEADER-ONE, HEADER-TWO *)
+  let txt := fun i : nat => [97 + Z.of_nat i; 49 + Z.of_nat i]%Z in
+  let ms := map (fun i => (i, txt i)) (seq 0 3) in
+  let v0 := mkView [GT; SP] [] ms 3 0 0 [] in
+  let rq := mkReqs true true true true false in
+  let u := mkUpd [GT; SP] [] ms 3 0 [] rq in
+  let dus := [mkDU (mkHdr false hd []) u; mkDU (mkHdr false [[88%Z]] []) u; mkDU (mkHdr true [[88%Z]] []) u] in
+  c_layout c0 <> LReverseList /\ cfg_ok (with_hdr c0 (mkHdr true hd [])) /\ coherent txt (v_matches v0) /\
+  dhist_ok txt c0 (start_d c0 (mkHdr true hd []) v0) dus /\
+  (let d := run_d c0 (start_d c0 (mkHdr true hd []) v0) (firstn 1 dus) in
+   let c := with_hdr c0 (mkHdr false hd []) in
+   row_at (physical c (t_screen (d_t d))) (list_row c 0) = pad 20 [62;32;97;49]%Z /\
+   row_at (physical c (t_screen (d_t d))) (list_row c 1) = pad 20 [32;32;98;50]%Z).
+Proof.
+  cbn zeta. split; [discriminate|]. split; [vm_compute; lia|]. split; [repeat constructor|].
+  split; [|vm_compute; auto].
+  cbn [dhist_ok]. repeat (split; [vm_compute; lia|split; [repeat constructor|split; [left; reflexivity|]]]). exact I.
+Qed.
 
 (* non-vacuity: a concrete configuration and state meet the hypotheses; the render shows pointer, marker,
    a truncated line and the layout's direction *)
